@@ -25,7 +25,7 @@ RULE = (
     "equator, across lon=180 and across lon=0, short arcs (4e-5..1.2e-3 rad, also both arcs of a crossing short, also shallow). Each case is repeated under endpoint swap, arc swap and 6 exact rotations "
     "about the polar axis (quarter turns and Pythagorean triples), expectation re-derived exactly and results compared "
     "with each other. Margins: every generated case is >= 2e-6 rad (10x float safety) from every decision boundary. "
-    "Non-trivial = special placement or an expected crossing / expected True."
+    "Every third call is made twice on the very same array objects: same answer, arguments left as given. Non-trivial = special placement or an expected crossing / expected True."
 )
 ASSUMPTIONS = [
     "is_directed=False (the documented default) for point_within_gca; fma_disabled=True (default)",
@@ -167,13 +167,35 @@ def _reuse(args):
     return out
 
 
+_NCALL = [0]
+
+
+def _same(r1, r2):
+    try:
+        return bool(np.array_equal(np.asarray(r1, dtype=float), np.asarray(r2, dtype=float), equal_nan=True))
+    except Exception:
+        return r1 == r2
+
+
 def _call(ctx, fn, sig, *args):
     args = _reuse(args)
+    _NCALL[0] += 1
     try:
         with warnings.catch_warnings():
             warnings.simplefilter("ignore")
             with np.errstate(all="ignore"):
-                return True, fn(*args)
+                if _NCALL[0] % 3:
+                    return True, fn(*args)
+                # every third call: the very same array objects are handed over a second time (no refill in between) - the
+                # answer to the same question is the same, and the caller's arrays still hold what they were given
+                given = [np.array(a, copy=True) if isinstance(a, np.ndarray) else None for a in args]
+                r = fn(*args)
+                kept = all(g is None or np.array_equal(g, a) for g, a in zip(given, args))
+                r2 = fn(*args)
+                ctx.check("repeatable", kept and _same(r, r2), {"fn": sig.get("fn"), "arguments_kept": kept, "which": sig.get("which", "")},
+                          {"first": np.asarray(r, dtype=float).tolist(), "second": np.asarray(r2, dtype=float).tolist(), "given": [g.tolist() for g in given if g is not None],
+                           "now": [np.asarray(a).tolist() for a in args if isinstance(a, np.ndarray)]})
+                return True, r
     except Exception as e:  # an exception on a well-formed, margin-controlled input is an observation
         ctx.check("no_exception", False, dict(sig, exc=core.exc_sig(e)), {"exc": repr(e), "args": [np.asarray(a).tolist() if not isinstance(a, str) else a for a in args]})
         return False, None
